@@ -6,7 +6,7 @@ use crate::c02::{gen_fault, ks_name, req_json, send_req, Req, ReqGen};
 use crate::core::{Outcome, Pass, Prop, Src};
 use crate::e2::{self, actor_view, store_view};
 use crate::ensure;
-use crate::model::SetView;
+use crate::model::{SetView, Stamp};
 use crate::registry::{DynPart, Gen};
 use crate::store::{Fault, ModelStore};
 
@@ -80,7 +80,9 @@ impl Prop for C07 {
          the same data runs load_states_from_storage; optionally a second history + crash on the rebuilt node; \
          oracle: for every keyspace storage lists, the rebuilt set's live ids/tombstones/stamps == iter_metadata \
          exactly, no state for unlisted keyspaces' ids, and every entry the set showed after the last completed \
-         request is still present with the same or a newer stamp (unless the interrupted request was a purge); \
+         request is still present with the same or a newer stamp (unless the interrupted request was a purge), and an \
+         operation on an unheld key that the set would have accepted before the stop (probes per origin node, 0 s - 6 h \
+         behind the newest stamp) is still accepted by the rebuilt set; \
          non-trivial = >=1 tombstone and >=1 live id at the crash point"
     }
 }
@@ -145,6 +147,29 @@ async fn run(case: &Case) -> Outcome {
                     now
                 );
             }
+            // A restart must not make the node refuse operations it would have accepted before it stopped: the
+            // rebuilt set may know less about what it has "already observed" (it is rebuilt through one source),
+            // never more -- otherwise it would refuse, and never fetch, entries it still lacks.
+            let before_set = ACKED_SETS.with(|a| a.borrow().get(k).cloned().flatten());
+            if let (Some(before_set), Some(rebuilt_set)) = (before_set, e2::actor_set(&new_group, &name).await) {
+                let stamps: Vec<Stamp> = before.live.values().chain(before.dead.values()).copied().collect();
+                let nodes: std::collections::BTreeSet<u8> = stamps.iter().map(|s| s.node).collect();
+                let newest = stamps.iter().map(|s| s.secs).max().unwrap_or(0);
+                for node in nodes {
+                    for back in [0u64, 600, 3_599, 3_600, 3_601, 7_200, 10_800, 21_600] {
+                        let probe = Stamp { secs: newest.saturating_sub(back), frac: 3, counter: 77, node };
+                        let unused = 0xFFFF_0000_0000_0001u64;
+                        if before_set.will_apply(unused, probe.hlc()) {
+                            ensure!(
+                                rebuilt_set.will_apply(unused, probe.hlc()),
+                                "restart-narrows-what-the-node-accepts",
+                                "keyspace {name}: before the stop an operation of node {node} at {:?} on a key the node does not hold would have been accepted, the rebuilt set refuses it (it will never fetch such an entry from a peer either)",
+                                probe
+                            );
+                        }
+                    }
+                }
+            }
             for (id, t) in before.dead.iter() {
                 let now = rebuilt.live.get(id).or_else(|| rebuilt.dead.get(id));
                 ensure!(
@@ -164,6 +189,8 @@ async fn run(case: &Case) -> Outcome {
 }
 
 thread_local! {
+    /// the deserialised sets themselves (for accept / refuse probes), taken together with `ACKED`
+    static ACKED_SETS: std::cell::RefCell<Vec<Option<datacake_crdt::OrSWotSet<2>>>> = std::cell::RefCell::new(vec![]);
     static ACKED: std::cell::RefCell<Vec<SetView>> = std::cell::RefCell::new(vec![]);
     static IN_FLIGHT_PURGE: std::cell::Cell<bool> = std::cell::Cell::new(false);
 }
@@ -190,6 +217,11 @@ async fn one_life(case: &Case, store: &ModelStore, group: &e2::Group) -> Result<
     let views = snapshot().await;
     let nontrivial = views.iter().any(|v| !v.dead.is_empty()) && views.iter().any(|v| !v.live.is_empty());
     ACKED.with(|a| *a.borrow_mut() = views);
+    let mut sets = vec![];
+    for k in 0..MAX_KS {
+        sets.push(e2::actor_set(group, &ks_name(k)).await);
+    }
+    ACKED_SETS.with(|a| *a.borrow_mut() = sets);
 
     let mut inside = false;
     if case.inside_next {
@@ -223,6 +255,11 @@ async fn one_life(case: &Case, store: &ModelStore, group: &e2::Group) -> Result<
                     v.push(actor_view(group, &ks_name(k)).await);
                 }
                 ACKED.with(|a| *a.borrow_mut() = v);
+                let mut sets = vec![];
+                for k in 0..MAX_KS {
+                    sets.push(e2::actor_set(group, &ks_name(k)).await);
+                }
+                ACKED_SETS.with(|a| *a.borrow_mut() = sets);
                 store.inner.lock().park_at = None;
             }
         }
